@@ -2,8 +2,8 @@ package props
 
 import (
 	"fmt"
-	"os"
 	"net/http"
+	"os"
 	"strings"
 
 	"connectrpc.com/vanguard"
